@@ -100,6 +100,34 @@ func main() {
 		rec(nil, 0)
 		return
 	}
+	// corpus: a statement that names a drawn blank node which is no longer anywhere in the store
+	{
+		st := memory.NewStore()
+		b := NewBlanks()
+		g := &Gen{R: rnd, B: b}
+		seq := Seq{ID: -1, Bulk: 2}
+		pool := Pool(b)
+		step := func(s VStmt) {
+			if s.Kind == "construct" {
+				s.Q = g.Query(ctx, st, s.Ins, s.WB, s.Note)
+			}
+			r := Execute(ctx, st, s.Text, seq.Bulk)
+			s.Obs = &Observed{Class: r.Class, Err: r.Err, After: Listing(ctx, st, b)}
+			seq.Stmts = append(seq.Stmts, s)
+		}
+		for _, s := range PoolPrefix(b) {
+			step(s)
+		}
+		step(pool[5]) // reifying CONSTRUCT into ?b
+		step(pool[3]) // DROP GRAPH ?b
+		if len(b.UUID) > 0 {
+			k := 0
+			t := VTriple{S: VNode{T: "/t", I: "c"}, P: VPred{ID: "p"}, O: VObj{N: &VNode{B: &k}}}
+			step(VStmt{Kind: "insert", Gs: []string{"?a"}, Ts: []VTriple{t}, Text: "INSERT DATA INTO ?a { " + b.TripleText(t) + " };"})
+			step(VStmt{Kind: "delete", Gs: []string{"?a"}, Ts: []VTriple{t}, Text: "DELETE DATA FROM ?a { " + b.TripleText(t) + " };"})
+		}
+		enc.Encode(seq)
+	}
 	for i := 0; i < *n; i++ {
 		st := memory.NewStore()
 		b := NewBlanks()
